@@ -137,6 +137,8 @@ func buildC13World(c *c13Case) (*c13World, *failure) {
 		w.forOpts.TypeSchemas = map[reflect.Type]*jsonschema.Schema{
 			reflect.TypeFor[tgen.Inner](): overrideSchema("Inner", reflect.TypeFor[tgen.Inner]()),
 			reflect.TypeFor[tgen.NInt]():  overrideSchema("NInt", reflect.TypeFor[tgen.NInt]()),
+			// a pointer-keyed entry (never consulted by the library; it must not be written to either)
+			reflect.TypeFor[*tgen.Base](): overrideSchema("Base", reflect.TypeFor[tgen.Base]()),
 		}
 	}
 	return w, nil
